@@ -337,4 +337,13 @@ def r14_8(run):
     run.floor(3)
 
 
-RULES = [("R14.1", r14_1), ("R14.5", r14_5), ("R14.6", r14_6), ("R14.7", r14_7), ("R14.8", r14_8)]
+def r14_9(run):
+    """the merged options reach the solver under the right names: every stage reads the iteration limit of its own mode
+    (max_iter_hyd / max_iter_therm / max_iter_bidirect), so the value in force is the one the precedence rules selected for
+    that mode (shared with C05 R5.4)"""
+    from .c05 import stage_iteration_options
+    stage_iteration_options(run)
+    run.floor(6)
+
+
+RULES = [("R14.1", r14_1), ("R14.5", r14_5), ("R14.6", r14_6), ("R14.7", r14_7), ("R14.8", r14_8), ("R14.9", r14_9)]
